@@ -18,10 +18,20 @@ REPAIRED design) instead, answering "skip" for cases outside its fragment: every
 additional argument `corefull` (today's implementation still has finding F1 there).  `cyc` runs the fresh-evaluation cycle model (QbiceVerif.Model.Cycle, the one
 the C06 theorems are about): it answers the first session of a case and every round up to the
 second session (single-epoch evaluation from the empty store) and "skip" afterwards.
+`inv`: the PROVED INVARIANT of the extended core model as an oracle on dumped states of the implementation:
+the input is a case (`case` / `node` lines), operations (`session …` lines: only their `world k v` writes
+are used; every other line is ignored) and lines `#D <digest>` (the state digest of the real engine at a
+quiescent point, format of `digest` below); one output line per `#D` line: `inv ok`, `inv FAIL <clause> <key>`
+(`Qbice.CoreFw.firstFail`; soundness `Qbice.CoreFw.inv_dump_sound`), `inv skip` (program outside the
+acyclic fragment) or `inv bad-digest`.  For programs outside `Shape` (a projection reads a projection with a
+conditional) the invariant is not proved: the clauses about static projections are switched off and the
+answers are `inv ok-nonshape` / `inv FAIL-nonshape <clause> <key>`.  With the additional argument `extra` the
+expected but UNPROVED checks (`Qbice.CoreFw.extraClauses`) run after the proved ones: `inv FAIL-extra <check> <key>`.
 -/
 import QbiceVerif.Model.Engine
 import QbiceVerif.Model.EngineCore
 import QbiceVerif.Model.Cycle
+import QbiceVerif.Lemmas.EngineCoreFwDump
 open Qbice.Engine
 
 inductive Expr where
@@ -322,6 +332,104 @@ def stepCyc (d : DS) (toks : List String) : DS × String :=
       | .error _ => ({ d with cycOk := false }, "crash panic")
   | _ => (d, "bad-op")
 
+/-- the read sequence of an expression without conditionals (`Qbice.CoreFw.ProgStatic`) -/
+def Expr.staticKs : Expr → Option (List Nat)
+  | .const _ => some []
+  | .read k => some [k]
+  | .world _ => some []
+  | .sumAll ks => some ks
+  | .add a b => do pure ((← a.staticKs) ++ (← b.staticKs))
+  | .ifEq _ _ _ _ => none
+
+def between (s : String) (a b : String) : String :=
+  match s.splitOn a with
+  | _ :: r :: _ => (r.splitOn b).headD ""
+  | _ => ""
+
+def natList (s : String) : Option (List Nat) :=
+  ((s.splitOn ",").filter (· ≠ "")).mapM String.toNat?
+
+/-- one node of a digest line -/
+def parseDNode (part : String) : Option (Nat × Qbice.CoreFw.DNode) :=
+  match part.splitOn ":" with
+  | [k, kind, v, val, deps, obs, dirty, tfc, pend, back] => do
+    let k ← k.toNat?
+    let kind ← parseKind kind
+    let value ← ((val.splitOn "=").getD 1 "").toInt?
+    let deps ← natList (((between deps "[" "]").replace "{" "").replace "}" "")
+    let obs ← ((between obs "[" "]").splitOn ",").filter (· ≠ "") |>.mapM fun o =>
+      (String.ofList (o.toList.takeWhile Char.isDigit)).toNat?.map fun c => (c, o.contains '!', o.contains '^')
+    let dirty ← natList (between dirty "[" "]")
+    let tfc ← natList (between tfc "[" "]")
+    let back ← natList (between back "[" "]")
+    -- every recorded dependency has an observation and vice versa
+    if sortNat deps != obs.map (·.1) then none else
+    let ddeps ← deps.mapM fun d => (lookup d obs).map fun (f : Bool × Bool) =>
+      ({ key := d, valDiff := f.1, tfcDiff := f.2 } : Qbice.CoreFw.DDep)
+    pure (k, { kind := Qbice.CoreFw.ofKind kind, ver := v == "v1", value := value, deps := ddeps, dirty := dirty,
+               tfc := tfc, pend := pend == "pend=1", back := back })
+  | _ => none
+
+def parseDigest (n : Nat) (world : Nat → Int) (line : String) : Option Qbice.CoreFw.DSt := do
+  let parts := ((line.splitOn " ; ").map fun s => s.trimAscii.toString).filter (· ≠ "")
+  let nodes ← parts.mapM parseDNode
+  let len := nodes.foldl (fun m e => max m (e.1 + 1)) n
+  pure { nodes := (List.range len).map fun k => lookup k nodes, world := world }
+
+structure IS where
+  prog : Program := []
+  exprs : List Expr := []
+  kinds : List Kind := []
+  ok : Bool := true
+  /-- `Qbice.CoreFw.Shape`, syntactically: a projection reads firewalls and conditional-free projections only -/
+  shape : Bool := true
+  world : Nat → Int := fun _ => 0
+
+partial def loopInv (h : IO.FS.Stream) (out : IO.FS.Stream) (extra : Bool) (d : IS) : IO Unit := do
+  let line ← h.getLine
+  if line.isEmpty then return ()
+  let toks := (line.trimAscii.toString.splitOn " ").filter (· ≠ "")
+  match toks with
+  | "case" :: _ => loopInv h out extra {}
+  | "node" :: k :: kind :: dflt :: rest =>
+    match k.toNat?, parseKind kind, dflt.toInt?, parseExpr rest with
+    | some k, some kind, some dflt, some (e, []) =>
+      let d' : IS := { d with
+        prog := d.prog ++ [{ kind := kind, dflt := dflt, prog := e.toProg .ret }]
+        exprs := d.exprs ++ [e]
+        kinds := d.kinds ++ [kind]
+        ok := d.ok && k == d.prog.length && coreFragment true d.kinds k kind e
+        shape := d.shape && (kind != Kind.projection || e.reads.all fun x =>
+          d.kinds[x]? == some Kind.firewall ||
+            (d.kinds[x]? == some Kind.projection && ((d.exprs[x]?).bind Expr.staticKs).isSome)) }
+      loopInv h out extra d'
+    | _, _, _, _ => loopInv h out extra { d with ok := false }
+  | "session" :: rest =>
+    match parseWrites rest with
+    | some ws => loopInv h out extra { d with world := Qbice.Core.applyWorld (ws.map coreWrite) d.world }
+    | none => loopInv h out extra d
+  | "#D" :: _ =>
+    if !d.ok then out.putStrLn "inv skip" else
+    let cp := Qbice.CoreFw.ofProgram d.prog
+    let stat : Nat → Option (List Nat) := fun k =>
+      if !d.shape then none else
+      match d.exprs[k]?, d.kinds[k]? with
+      | some e, some .projection => e.staticKs
+      | _, _ => none
+    match parseDigest cp.length d.world ((line.trimAscii.toString.drop 2).toString) with
+    | none => out.putStrLn "inv bad-digest"
+    | some D =>
+      match Qbice.CoreFw.firstFail cp stat D with
+      | none =>
+        -- `extra`: expected but unproved checks (`Qbice.CoreFw.extraClauses`)
+        match (if extra then Qbice.CoreFw.firstFailExtra D else none) with
+        | some (c, k) => out.putStrLn s!"inv FAIL-extra {c} {k}"
+        | none => out.putStrLn (if d.shape then "inv ok" else "inv ok-nonshape")
+      | some (c, k) => out.putStrLn (if d.shape then s!"inv FAIL {c} {k}" else s!"inv FAIL-nonshape {c} {k}")
+    loopInv h out extra d
+  | _ => loopInv h out extra d
+
+
 partial def loop (h : IO.FS.Stream) (out : IO.FS.Stream) (core : Bool) (corefull : Bool) (cyc : Bool) (msg : Bool) (state : Bool) (stateMax : Nat) (caseNo : Nat) (t : Toggles) (d : DS) : IO Unit := do
   let line ← h.getLine
   if line.isEmpty then return ()
@@ -346,4 +454,5 @@ def main (args : List String) : IO Unit := do
     | some a => ((a.drop 9).toString.toNat?).getD 0
     | none => 1000000000
   let t : Toggles := { tape := tape, f1 := args.contains "f1", f2 := !args.contains "nof2", f3 := args.contains "f3", f14 := !args.contains "nof14", f1p := !args.contains "nof1p", f1q := !args.contains "nof1q", f1r := !args.contains "nof1r", f13 := !args.contains "nof13", f16 := !args.contains "nof16", f33 := !args.contains "nof33", f31 := args.contains "f31", f32 := args.contains "f32", f34 := !args.contains "nof34", f35 := !args.contains "nof35", f36 := !args.contains "nof36", desc := args.contains "desc" }
+  if args.contains "inv" then loopInv (← IO.getStdin) (← IO.getStdout) (args.contains "extra") {} else
   loop (← IO.getStdin) (← IO.getStdout) (args.contains "core" || args.contains "corefull") (args.contains "corefull") (args.contains "cyc") (args.contains "msg") (args.contains "state") stateMax 0 t {}
